@@ -191,3 +191,61 @@ func (b *Body) roleNameOf(fn *ssa.Function) string {
 	}
 	return fn.Name()
 }
+
+
+// equalRole: the recursive structural comparison of two nodes: a method of
+// *lazyNode that takes another *lazyNode, returns bool and calls itself.
+func (b *Body) equalRole() *ssa.Function {
+	if b.roleCache == nil {
+		b.roleCache = map[string]*ssa.Function{}
+	}
+	if f, ok := b.roleCache["(equal)"]; ok {
+		return f
+	}
+	var got *ssa.Function
+	n := 0
+	for _, f := range b.srcFuncs(b.Lib) {
+		if f.Signature.Recv() == nil || !isPtrToNamed(f.Signature.Recv().Type(), "lazyNode") {
+			continue
+		}
+		if f.Signature.Results().Len() != 1 || typeShort(f.Signature.Results().At(0).Type()) != "bool" {
+			continue
+		}
+		has := false
+		for i := 0; i < f.Signature.Params().Len(); i++ {
+			if isPtrToNamed(f.Signature.Params().At(i).Type(), "lazyNode") {
+				has = true
+			}
+		}
+		if !has {
+			continue
+		}
+		rec := false
+		for _, g := range b.libCalleesOf(f) {
+			if g == f {
+				rec = true
+			}
+		}
+		if rec {
+			got = f
+			n++
+		}
+	}
+	if n != 1 {
+		got = b.method(b.Lib, "lazyNode", "equal")
+	}
+	b.roleCache["(equal)"] = got
+	return got
+}
+
+// canonFname: fname(fn) with the historical name substituted when fn is found
+// through its role (tables of reviewed exceptions are keyed by these names).
+func (b *Body) canonFname(fn *ssa.Function) string {
+	if fn == b.equalRole() {
+		return "(*lazyNode).equal"
+	}
+	if fn.Signature.Recv() == nil && fn.Parent() == nil {
+		return b.roleNameOf(fn)
+	}
+	return fname(fn)
+}
